@@ -38,7 +38,7 @@ func c18(c *Ctx) {
 
 func dialerField(t *core.Term, name string) bool {
 	t = strip(t)
-	return t.Kind == core.KLoad && t.Args[0].Kind == core.KFieldAddr && t.Args[0].Var.Name() == name
+	return t.Kind == core.KLoad && t.Args[0].Kind == core.KFieldAddr && fieldName(t.Args[0].Var) == name
 }
 
 func c18firstHop(c *Ctx) {
@@ -231,17 +231,22 @@ func c18firstHop(c *Ctx) {
 			res := strip(p.Results[0])
 			if isHTTP {
 				nHTTP++
-				good := res.Kind == core.KClosure && len(res.Args) == 1 && strings.Contains(res.Ref.(*ssa.Function).String(), "httpProxyDialer).DialContext")
+				good := res.Kind == core.KClosure && len(res.Args) == 1 && (strings.Contains(res.Ref.(*ssa.Function).String(), "httpProxyDialer).DialContext") || strings.TrimSuffix(shortFn(res.Ref.(*ssa.Function)), "$bound") == "(*httpProxyDialer).DialContext" || func() bool {
+					// the bound method of the (possibly renamed) proxy dialer type
+					f := res.Ref.(*ssa.Function)
+					hd := c.P.FuncOpt("(*httpProxyDialer).DialContext")
+					return hd != nil && strings.TrimSuffix(f.String(), "$bound") == hd.String()
+				}())
 				if good {
 					recv := strip(res.Args[0])
 					var gotURL, gotFwd bool
 					for i := range p.Events {
 						ev := &p.Events[i]
 						if ev.Kind == core.EvStore && ev.Addr.Kind == core.KFieldAddr && ev.Addr.Args[0] == recv {
-							if ev.Addr.Var.Name() == "proxyURL" && ev.Val.Kind == core.KParam && ev.Val.Ref == pf.Params[0] {
+							if fieldName(ev.Addr.Var) == "proxyURL" && ev.Val.Kind == core.KParam && ev.Val.Ref == pf.Params[0] {
 								gotURL = true
 							}
-							if ev.Addr.Var.Name() == "forwardDial" && ev.Val.Kind == core.KParam && ev.Val.Ref == pf.Params[1] {
+							if fieldName(ev.Addr.Var) == "forwardDial" && ev.Val.Kind == core.KParam && ev.Val.Ref == pf.Params[1] {
 								gotFwd = true
 							}
 						}
